@@ -36,6 +36,11 @@ def replay_file(path: str, quiet=False):
 
     for i, ev in enumerate(events):
         sandbox.invalidate()
+        if ev not in [_tup(json.loads(json.dumps(e))) for e in world.enabled(st)]:
+            # on another tree the recorded path may simply not exist any more
+            if not quiet:
+                print(f"not reproduced: event {i} {ev} is not enabled on this tree")
+            return False, False
         try:
             obs = guarded_apply(world, st, ev)
             sandbox.invalidate()
